@@ -101,6 +101,7 @@ def work_items(ctx):
             items.append((qn, 'seed', i))
         items.append((qn, 'short', 0))
         items.append((qn, 'cross', 0))
+        items.append((qn, 'composed', 0))
         if bytefam.is_texty(ss):
             items.append((qn, 'tokens', 0))
         if not ctx.quick:
@@ -139,6 +140,22 @@ def _worker(args):
                         acc.count('inputs')
                 if idx == 0:
                     acc.sample({'cls': qn, 'seed': seed, 'example_mutation': 'I2 pos 0 -> 0xff'}, 1)
+            elif kind == 'composed':
+                # what the composer writes for every object within one deviation of every seed object (values no byte
+                # family reaches: lists of mixed kinds, every enum member, boundary integers), on the three entry points
+                from mc import objects
+                import enum
+                for o0 in objects.seed_objects().get(cls, []):
+                    if isinstance(o0, enum.Enum):
+                        continue
+                    for path, o, stats in objects.neighbourhood(o0, 1, False, 400):
+                        try:
+                            data = bytes(o.compose())
+                        except Exception:  # noqa (C05 / C13)
+                            continue
+                        for entry in ENTRY_ALL:
+                            r.one(cls, qn, entry, data, ('composed',) + tuple(str(p) for p in path))
+                        acc.count('inputs')
             elif kind == 'short':
                 for tag, data in bytefam.i5_short(ss, thorough):
                     r.one(cls, qn, 'immutable', data, tag)
